@@ -298,7 +298,7 @@ pub fn run_c14(ctx: &Ctx) -> ! {
     let mut rep = Report::new(
         ctx,
         "exploration",
-        "the complete D-uri product (80 640 target URIs, thorough + 107 520 further shapes, see C13) through the private URL mapper (cfg-guarded hook verif_transport_url); result split by the string-level splitter R3 and compared component-wise: ipp->http, ipps->https, http/https kept; port = given, else 631 for both ipp and ipps; host, user-info, path (\"\" = \"/\") and query unchanged; and what the two clients do with that mapping, observed by a loopback peer (child process of the network engine): request target, Host header and connection count for scheme {ipp, http} x host {127.0.0.1, localhost} x user-info(4) x path(7) x query(5) ('@', ':' and '/' inside path and query) x client configuration {plain, basic_auth, custom header, Authorization header} = 4 480 exchanges. distinct = URI index; non-trivial = accepted by http::Uri",
+        "the complete D-uri product (80 640 target URIs, thorough + 107 520 further shapes, see C13) through the private URL mapper (cfg-guarded hook verif_transport_url); result split by the string-level splitter R3 and compared component-wise: ipp->http, ipps->https, http/https kept; port = given, else 631 for both ipp and ipps; host, user-info, path (\"\" = \"/\") and query unchanged; and what the two clients do with that mapping, observed by a loopback peer (child process of the network engine): request target, Host header and connection count for scheme {ipp, http} x host {127.0.0.1, localhost} x user-info(4) x path(9) x query(5) ('@', ':' and '/' inside path and query) x client configuration {plain, basic_auth, custom header, Authorization header} = 5 760 exchanges. distinct = URI index; non-trivial = accepted by http::Uri",
     );
     rep.assume("hook verif_transport_url is a pure pass-through to ipp_uri_to_string (add-only, cfg(ipp_verif)); that the clients really contact the URL this function returns is observed on the wire (section transport-url-on-the-wire)");
     if let Some(p) = &ctx.replay {
